@@ -2,6 +2,8 @@
 package router_address
 
 import (
+	"strings"
+
 	"github.com/go-i2p/logger"
 	"github.com/samber/oops"
 
@@ -116,20 +118,29 @@ func parseTransportType(ra *RouterAddress, routerData []byte) ([]byte, error) {
 
 // parseTransportOptions parses the transport options mapping from data.
 // Returns remaining data after parsing and any error encountered.
-// Propagates errors only when the mapping cannot be parsed (nil result).
-// Warnings about trailing data are expected in RouterAddress context and logged only.
+// Warnings about trailing data are expected in RouterAddress context and logged only;
+// every other mapping error (in particular a mapping cut short of its size field or of
+// its declared length) fails the address, so that a truncated RouterAddress is never
+// reported as a successful parse.
 func parseTransportOptions(ra *RouterAddress, routerData []byte) ([]byte, error) {
 	transportOptions, remainder, errs := data.NewMapping(routerData)
+	var fatal error
 	for _, err := range errs {
 		log.WithFields(logger.Fields{
 			"at":     "(RouterAddress) parseTransportOptions",
 			"reason": "error parsing options",
 			"error":  err,
 		}).Error("error parsing RouterAddress")
+		if fatal == nil && !strings.Contains(err.Error(), "warning parsing mapping: data exists beyond length of mapping") {
+			fatal = err
+		}
 	}
 	ra.TransportOptions = transportOptions
-	if transportOptions == nil && len(errs) > 0 {
-		return remainder, oops.Errorf("error parsing RouterAddress options: %v", errs[0])
+	if fatal != nil || (transportOptions == nil && len(errs) > 0) {
+		if fatal == nil {
+			fatal = errs[0]
+		}
+		return remainder, oops.Errorf("error parsing RouterAddress options: %v", fatal)
 	}
 	return remainder, nil
 }
